@@ -73,15 +73,19 @@ Definition py_int (num : str) : option Z :=
 
 Inductive ucres := UcOk (n : Z) | UcKeyError | UcValueError.
 
-(* _volumesize_unitconv.  `int(num) if unit is None else int(num) * self.dunits[unit]`: the
-   `unit is None` arm is dead (group 2 always participates), so a size without a unit letter looks up
-   dunits[""]; int(num) is evaluated before the lookup. *)
+(* _volumesize_unitconv.  `int(num) if not unit else int(num) * self.dunits[unit]`: group 2 is ""
+   when no unit letter is present, and then the size is a number of bytes; int(num) is evaluated before
+   the dunits lookup (ValueError before KeyError). *)
 Definition volumesize_unitconv_x (s : str) : ucres :=
   match unit_pattern_match s with
   | Some (num, unit) =>
     match py_int num with
     | None => UcValueError
-    | Some n => match dunits unit with Some m => UcOk (n * m) | None => UcKeyError end
+    | Some n =>
+      match unit with
+      | [] => UcOk n
+      | _ :: _ => match dunits unit with Some m => UcOk (n * m) | None => UcKeyError end
+      end
     end
   | None => UcOk (-1)
   end.
@@ -98,6 +102,9 @@ Definition in_help_grammar (s : str) : bool :=
   | [] => false
   | _ :: _ => match rest with [] => true | [c] => is_unit_lower c | _ => false end
   end.
+
+(* number of digits of the leading decimal number *)
+Definition num_digits (s : str) : Z := Z.of_nat (length (fst (span_digits s))).
 
 Definition has_unit_suffix (s : str) : bool :=
   match snd (span_digits s) with [] => false | _ => true end.
@@ -146,13 +153,14 @@ Definition status_of (r : cli_result) : option Z :=
 Record lib := { l_is7z : bool; l_getpass_warn : bool; l_open : option exc; l_info : option exc;
                 l_work : option exc }.
 
-(* SevenZipFile.testzip (py7zr.py): except CrcError as crce: return crce.args[2] *)
+(* SevenZipFile.testzip (py7zr.py): except CrcError as crce:
+     return crce.args[2] if crce.args[2] is not None else "(folder checksum)" *)
 Inductive tz := TzNone | TzName | TzRaise (e : exc).
 Definition testzip (work : option exc) : tz :=
   match work with
   | None => TzNone
   | Some (XCrc true) => TzName
-  | Some (XCrc false) => TzNone          (* args[2] is None: indistinguishable from "good" *)
+  | Some (XCrc false) => TzName          (* args[2] is None: "(folder checksum)" is returned instead *)
   | Some e => TzRaise e
   end.
 
@@ -302,6 +310,9 @@ Definition write_ok (L : lib) : bool := no_exc (l_open L) && no_exc (l_work L).
 Definition L_ok : lib := {| l_is7z := true; l_getpass_warn := false; l_open := None; l_info := None; l_work := None |}.
 Definition L_unsupported : lib :=
   {| l_is7z := true; l_getpass_warn := false; l_open := None; l_info := None; l_work := Some XUnsupported |}.
+
+Definition L_folder_crc : lib :=
+  {| l_is7z := true; l_getpass_warn := false; l_open := None; l_info := None; l_work := Some (XCrc false) |}.
 
 (* ------------------------------------------------------------------ driver protocol *)
 
